@@ -80,6 +80,9 @@ package router
 //@   requires w != nil
 //@   callsite config.Config.CheckInboundTrafficPolicy packet-fields [C06]: arg1 == connKey.protocol && arg2 == connKey.localPort && arg3 == connKey.remoteIP && inbound
 //@   callsite Router.outboundAllowedTo packet-destination [C06]: arg1 == connKey.remoteIP && !inbound
+// (The next clause FAILS on the current code: the connection table is shared by both directions and a cached verdict
+// is returned without looking at the direction it was decided for - see /verif/KNOWN_FINDINGS.txt, C06.)
+//@   callsite atomic.Uint32.Load cached-verdict-was-decided-for-this-direction [C06]: connState.inbound == inbound
 
 // A packet from the mesh reaches the tun device only if the frame unsealed under the sender's session, the inner
 // addresses equal the frame's, the destination is not internal and the policy admits it.
